@@ -1007,3 +1007,43 @@ def http_get(case, ctx):
         ctx.check(ln2.value <= ln.value, "%s reports %d content bytes for a buffer of %d" % (what, ln2.value, ln.value), "http_get/length")
         ctx.check(buf.raw(min(ln2.value, ln.value)) == sent[:min(ln2.value, ln.value)], "%s delivers other bytes than the peer sent" % what, "http_get/content")
         ctx.check(len(sent) >= ln2.value, "%s returns 1 although the body was cut short" % what, "http_get/short-accepted")
+
+
+# ---------------------------------------------------------------------------
+# x509_certs_from_pem(d, &dlen, maxlen, fp): a PEM stream of several certificates read into a caller buffer of a declared capacity - the
+# capacity is drawn around the sizes of the single certificates and of their sum, the buffer is an exactly-sized ASan heap block
+pemcerts_case = _st.fixed_dictionaries({"n": _st.integers(1, 5), "inst": _st.integers(0, 3), "capsel": _st.sampled_from(["sum", "sum-1", "sum-1", "sum+1", "one", "one+1", "two-1", "half", "zero", "big"]),
+                                        "junk": _st.sampled_from(["", "", "text-between", "crlf"])})
+
+
+@P.sub("certs_from_pem", pemcerts_case, quick=400, thorough=12000, variants=("asan",))
+def certs_from_pem(case, ctx):
+    """x509_certs_from_pem with capacities around the certificate sizes and their sum"""
+    import ctypes
+    from vlib.ffi import lib, Buf, helper
+    from vlib import pki
+    from vlib.ref import x509 as XR
+    l = lib(ctx.variant)
+    ch = pki.Chain("c06pem-%d" % case["inst"], n_inter=3)
+    ders = [ch.certs[k] for k in ("leaf", "ca2", "ca1", "ca0", "root")][:case["n"]]
+    sep = {"": b"", "text-between": b"some text between the blocks\n", "crlf": b"\r\n"}[case["junk"]]
+    pem = sep.join(XR.pem("CERTIFICATE", d) for d in ders)
+    total, one = sum(len(d) for d in ders), len(ders[0])
+    cap = {"sum": total, "sum-1": total - 1, "sum+1": total + 1, "one": one, "one+1": one + 1, "two-1": len(ders[0]) + (len(ders[1]) if len(ders) > 1 else 0) - 1,
+           "half": total // 2, "zero": 0, "big": total + 500}[case["capsel"]]
+    path = os.path.join(B.BUILD, "tmp", "c06_%d_certs.pem" % os.getpid())
+    os.makedirs(os.path.dirname(path), exist_ok=True)
+    open(path, "wb").write(pem)
+    dll = helper()[0]
+    fp = dll.vh_fopen(path.encode(), b"r")
+    buf = Buf(max(cap, 1), fill=0xA5) if cap else Buf(1, fill=0xA5)
+    ol = ctypes.c_size_t(0)
+    r = l.x509_certs_from_pem(buf, ctypes.byref(ol), cap, fp)
+    dll.vh_fclose(fp)
+    ctx.case(nontrivial=case["n"] > 1, classes=["certs=%d" % case["n"], "cap:" + case["capsel"], "ret=%d" % (1 if r == 1 else -1 if r < 0 else 0)], ident=case, sample=case)
+    what = "x509_certs_from_pem of %d certificates (%d bytes in all, first %d) into a buffer declared as %d bytes" % (case["n"], total, one, cap)
+    if r == 1:
+        ctx.check(ol.value <= cap, "%s returns 1 with *dlen = %d" % (what, ol.value), "certs_from_pem/length")
+        ctx.check(buf.raw(min(ol.value, cap)) == b"".join(ders)[:min(ol.value, cap)], "%s delivers other bytes than the certificates" % what, "certs_from_pem/content")
+    if cap >= total and not case["junk"]:
+        ctx.check(r == 1 and ol.value == total, "%s returns %d with *dlen = %d although everything fits" % (what, r, ol.value), "certs_from_pem/refused")
